@@ -54,6 +54,20 @@ def gen_case(g):
             rows.append([tt, c, x, y, tag])
             tag += 1
         comps.append(sorted(rows))      # a component's own list is time-ordered (the constructor insists)
+    if ncomp >= 2 and not all_outside and g.uniform() < 0.35:
+        # two events of different components one tick (0.95 µs) apart inside the same microsecond, the later one in the component that is
+        # added first: the written rows must still be in time order (bright sources do this all the time when the dead time is switched off)
+        a, b = gtis[int(g.integers(0, ngti))]
+        for _ in range(40):
+            tt = int(g.integers(a + 1, b))
+            if tt not in used and tt + 1 not in used and (tt * 1000000) // 2 ** 20 == ((tt + 1) * 1000000) // 2 ** 20:
+                used.update((tt, tt + 1))
+                comps[0] = sorted(comps[0] + [[tt + 1, 0, 1.5, -2.5, tag]])
+                comps[1] = sorted(comps[1] + [[tt, 1, -0.5, 3.5, tag + 1]])
+                tag += 2
+                if g.uniform() < 0.6:
+                    dead = 0
+                break
     return dict(s0=s0, stop=stop, gtis=gtis, dead=dead, comps=comps, order=list(range(ncomp)))
 
 
@@ -94,6 +108,10 @@ def impl_run(case):
         total = total + el
     with scratch() as d:
         path = os.path.join(d, 'ev.fits')
+        if case.get('prewrite'):
+            # the same list object written first with the dead time switched off (a user comparing settings): the second file obeys *its* dead time
+            evfile.write_event_list(total, os.path.join(d, 'first.fits'), [(a * TICK, b * TICK) for a, b in case['gtis']], case['s0'] * TICK, case['stop'] * TICK,
+                                    nsrc=len(comps), deadtime=0.)
         evfile.write_event_list(total, path, [(a * TICK, b * TICK) for a, b in case['gtis']], case['s0'] * TICK, case['stop'] * TICK,
                                 nsrc=len(comps), deadtime=case['dead'] * TICK)
         with fits.open(path) as h:
@@ -181,13 +199,17 @@ def run_cases(chk, n, tagname, budget=1):
             c2 = dict(c, order=[int(x) for x in g.permutation(len(c['comps']))])
             cases.append(c2)
             drv.ask(model_line(c2))
+        if c['dead'] > 0 and i % 4 == 1:
+            c3 = dict(c, prewrite=True)
+            cases.append(c3)
+            drv.ask(model_line(c3))
     replies = drv.run()
     for c, rep in zip(cases, replies):
         vals = [int(x) for x in rep.split()]
         m_tag, m_lt, m_trg = vals[0::3], vals[1::3], vals[2::3]
         nrows = sum(len(r) for r in c['comps'])
         nontriv = sum(1 for r in c['comps'] if r) >= 2 and len(m_tag) >= 2 and (len(m_tag) < nrows)
-        short = dict(op='finalize', gtis=c['gtis'], dead=c['dead'], order=c['order'], rows_per_component=[len(r) for r in c['comps']], kept=len(m_tag))
+        short = dict(op='finalize' if not c.get('prewrite') else 'finalize after a first write of the same list without dead time', gtis=c['gtis'], dead=c['dead'], order=c['order'], rows_per_component=[len(r) for r in c['comps']], kept=len(m_tag))
         chk.case(dict(short, first_rows=[r for rows in c['comps'] for r in rows][:4]), nontrivial=nontriv)
         try:
             res = impl_run(c)
